@@ -754,6 +754,16 @@ def merge_rules(run, r_bases, r_ids, ast):
                         continue
                     if cn is not None and any(x.get("k") == "CallExpr" and (x.get("callee") or "").startswith("std::find<") for x in astq.walk(cn)):
                         continue        # not yet in the list
+                    if cn is not None and any(x.get("k") == "CallExpr" and re.match(r"^std::(none_of|any_of|find_if|count_if)<", x.get("callee") or "") for x in astq.walk(cn)):
+                        # membership through a predicate: it must compare the RAW ids (ids of one class all share their projection)
+                        lam = [x for x in astq.walk(cn) if x.get("k") == "LambdaExpr"]
+                        rets = [r for l in lam for b in ([l["lambda"].get("body")] + list(l["lambda"].get("specializations") or [])) if b for r in astq.walk(b) if r.get("k") == "ReturnStmt" and r.get("c")]
+                        proj = any(x.get("k") in ("CallExpr", "CXXMemberCallExpr") and (x.get("callee") or "").endswith("::type_index") for r in rets for x in astq.walk(r))
+                        if rets and not proj:
+                            continue
+                        if proj:
+                            bad.append("a predicate that compares Policy::type_index of the ids (equal for all ids of one class)")
+                            continue
                     bad.append(astq.text(cn) if cn else "?")
                 run.instance(r_ids, "%s: every new id of a class is appended to its id list" % short(f), (f["file"], ti[0]["l"]), ok=not bad)
                 for t in bad:
@@ -1390,14 +1400,30 @@ def idem_rules(run, r_idem, ast):
                     return not registered
                 return None
 
+            def field_store(n):
+                """assignment to a field of the registration record (`info.<field> = ...`) other than `method`"""
+                if n.get("k") != "BinaryOperator" or n.get("op") != "=":
+                    return None
+                t = _canon(n["c"][0], {})
+                if isinstance(t, str) and t.startswith("info.") and t != "info.method":
+                    return t
+                return None
+
             def want(n):
-                return n is pb[0] or (n.get("k") == "BinaryOperator" and n.get("op") == "=" and _canon(n["c"][0], {}) == "info.method")
+                return n is pb[0] or (n.get("k") == "BinaryOperator" and n.get("op") == "=" and _canon(n["c"][0], {}) == "info.method") or field_store(n) is not None
             ps = astq.enum_paths(f["body"], decide, want, loops="unroll1")
-            res[registered] = [[("push" if n is pb[0] else "set-method") for k, n in p["events"]] for p in ps]
-        ok = all("push" not in p for p in res[True]) and all(p == ["set-method", "push"] for p in res[False]) and res[False]
+            res[registered] = [[("push" if n is pb[0] else "set-method" if field_store(n) is None else "set:" + field_store(n)) for k, n in p["events"]] for p in ps]
+        core = lambda p: [e for e in p if not e.startswith("set:")]
+        ok = all("push" not in p for p in res[True]) and all(core(p) == ["set-method", "push"] for p in res[False]) and res[False]
         run.instance(r_idem, "%s: a definition already registered is not pushed again; otherwise method is set, then pushed" % short(f)[:80], (f["file"], pb[0]["l"]), ok=bool(ok))
         if not ok:
             run.violation(r_idem, "method::add_function|idempotence", "events when already registered: %s, when not: %s" % (res[True], res[False]), (f["file"], pb[0]["l"]))
+        # registering a function again changes nothing: on the 'already registered' paths no field of the record is written (a second
+        # registration without a next pointer would otherwise erase the one update stores through)
+        touched = sorted({e for p in res[True] for e in p if e.startswith("set:")})
+        run.instance(r_idem, "%s: the record of a definition already registered is left untouched" % short(f)[:80], (f["file"], pb[0]["l"]), ok=not touched)
+        if touched:
+            run.violation(r_idem, "method::add_function|record-rewritten", "when the function is already registered its record is still written (%s): a later registration changes what the first one established (e.g. erases the next pointer)" % ", ".join(t[4:] for t in touched), (f["file"], pb[0]["l"]))
 
 
 # ---------------------------------------------------------------------------
@@ -2090,6 +2116,38 @@ def alloc_rules(run, rule, ast):
             for i in ifs:
                 c = astq.strip(i["cond"])
                 in_then = _in_subtree(i.get("then"), tc)
+                # the decision named by a local bool: it must be this root's own verdict - declared inside the loop over the roots and
+                # defined once, by the quantifier over this root's classes. A flag that lives across iterations (or is or-ed with its
+                # previous value) makes the algorithm chosen for one root depend on the roots visited before it.
+                c1 = c
+                neg = False
+                while c1 is not None and c1.get("k") == "UnaryOperator" and c1.get("op") == "!":
+                    c1, neg = astq.strip(c1["c"][0]), not neg
+                if c1 is not None and c1.get("k") == "DeclRefExpr" and c1["ref"].get("storage") == "local" and "bool" in (c1.get("t") or ""):
+                    fd = c1["ref"]["did"]
+                    loops = _enclosing(parent, tc, ("CXXForRangeStmt", "ForStmt", "WhileStmt"))
+                    decl = [(n, d) for n in astq.walk(f["body"]) if n.get("k") == "DeclStmt" for d in n["decls"] if d.get("did") == fd]
+                    asg = [n for n in astq.walk(f["body"]) if n.get("k") in ("BinaryOperator", "CompoundAssignOperator") and n.get("op") in ("=", "|=", "&=") and _refs(n["c"][0], fd) and astq.strip(n["c"][0]).get("k") == "DeclRefExpr"]
+                    inside = bool(decl) and bool(loops) and _in_subtree(loops[0].get("body"), decl[0][0])
+                    if not decl:
+                        run.broken.append("%s: declaration of the tree/lattice flag not found" % short(f))
+                        verdict = "broken"
+                        break
+                    if not inside or asg:
+                        verdict = False
+                        run.instance(rule, "%s: tree allocation only when no class at or below the root has several direct bases" % short(f), (f["file"], tc["l"]), ok=False)
+                        run.violation(rule, "compiler::assign_slots|tree-choice", "the tree/lattice decision is a flag `%s` that %s: the algorithm chosen for a root depends on the roots visited before it, i.e. on the order of registration; consecutive numbering is only collision-free in a tree" % (
+                            c1["ref"]["name"], "is declared outside the loop over the roots" if not inside else "is assigned again after its declaration"), (f["file"], tc["l"]))
+                        break
+                    if decl[0][1].get("init") is None:
+                        run.broken.append("%s: the tree/lattice flag has no initialiser" % short(f))
+                        verdict = "broken"
+                        break
+                    c = astq.strip(decl[0][1]["init"])
+                    if neg:
+                        in_then = not in_then
+                    i = dict(i)
+                    i["cond"] = decl[0][1]["init"]
                 # quantifier over a set of classes with a predicate on the number of direct bases
                 q = [x for x in astq.walk(c) if x.get("k") == "CallExpr" and re.match(r"^std::(find_if|any_of|none_of|all_of|count_if)<", x.get("callee") or "")]
                 if not q:
@@ -3026,3 +3084,125 @@ def dedup_rules(run, rule, ast):
                 run.violation(rule, "compiler::augment_classes|dedup-installed", "after the de-duplication step the class's base list is in state `%s`" % state.get(("M", 0)), (f["file"], lp["l"]))
         if not done:
             run.broken.append("%s: the per-class step that sets the weight was not found" % short(f))
+
+
+def handler_api_rules(run, rule):
+    """the error-handler API around the report: (1) set_error_handler / set_method_call_error_handler return the handler that was
+    installed BEFORE the call (a copy taken before the store, or std::exchange) - save / restore sequences put the right handler
+    back; (2) the initial handler of vectored_error<P, Provider> is Provider::default_error_handler (vectored_error<P>'s own when
+    no provider is given): a policy configured with an external provider reports through it from the first call."""
+    from . import witness
+    src = witness.PRELUDE + """
+namespace yh { struct prov { static void default_error_handler(const error_type&); };
+struct P : policy::basic_policy<P, policy::std_rtti, policy::fast_perfect_hash<P>, policy::vptr_vector<P>, policy::vectored_error<P, prov>> {};
+struct Q : policy::basic_policy<Q, policy::std_rtti, policy::fast_perfect_hash<Q>, policy::vptr_vector<Q>, policy::vectored_error<Q>> {};
+void use() { auto a = set_error_handler(nullptr); auto b = set_method_call_error_handler(nullptr); (void)a; (void)b; P::error(error_type()); Q::error(error_type()); policy::release::error(error_type()); } }
+"""
+    ast = astq.Ast(common.ast_json(run, src, "handler_api", funcs="set_error_handler|set_method_call_error_handler|vectored_error<"))
+    n = 0
+    for f in ast.funcs:
+        if not f.get("body") or not re.search(r"yomm2::set_(method_call_)?error_handler$", f["name"]):
+            continue
+        n += 1
+        hp = f["params"][0]["did"]
+        stmts = f["body"].get("c") or []
+        store = None
+        for k, st in enumerate(stmts):
+            e = astq.strip(st) if st.get("k") != "DeclStmt" else None
+            if e is not None and e.get("k") in ("BinaryOperator", "CXXOperatorCallExpr") and (e.get("op") == "=" or e.get("oop") == "="):
+                lhs, rhs = (e["c"][0], e["c"][1]) if e.get("k") == "BinaryOperator" else (e["c"][1], e["c"][2])
+                if _refs(rhs, hp) and (astq.refname(astq.strip(lhs)) or "").split("::")[-1] in ("error", "call_error"):
+                    store = (k, astq.strip(lhs))
+        rets = [x for x in astq.walk(f["body"]) if x.get("k") == "ReturnStmt" and x.get("c")]
+        ok, why = False, "shape not recognised"
+        if len(rets) == 1:
+            r = astq.strip(rets[0]["c"][0])
+            while r is not None and r.get("k") == "CXXConstructExpr" and len(r.get("c") or []) == 1:
+                r = astq.strip(r["c"][0])           # copy / move construction of the returned std::function
+            if r.get("k") == "CallExpr" and re.match(r"^std::exchange<", r.get("callee") or "") and _refs(r["c"][2], hp):
+                ok = True
+            elif r.get("k") == "DeclRefExpr" and r["ref"].get("storage") == "local" and store is not None:
+                decl = [(k, d) for k, st in enumerate(stmts) if st.get("k") == "DeclStmt" for d in st["decls"] if d.get("did") == r["ref"]["did"]]
+                if decl:
+                    k, d = decl[0]
+                    slot = astq.refname(store[1])
+                    reads_slot = d.get("init") is not None and any((astq.refname(x) or "") == slot for x in astq.walk(d["init"]))
+                    is_ref = (d.get("type") or "").rstrip().endswith("&")
+                    ok = reads_slot and not is_ref and k < store[0]
+                    why = "the returned variable is a reference to the handler slot (it reads the NEW handler after the store)" if is_ref else \
+                          "the returned variable is not a copy of the slot taken before the store"
+            elif store is None:
+                why = "no store of the new handler into the policy's handler slot found"
+        run.instance(rule, "%s returns the handler installed before the call" % f["name"].split("yomm2::")[-1], (f["file"], f["line"]), ok=ok)
+        if not ok:
+            if why == "shape not recognised":
+                run.broken.append("%s: %s" % (f["name"], why))
+            else:
+                run.violation(rule, "%s|previous" % f["name"].split("yomm2::")[-1], "%s: %s - a caller that saves the result and restores it later re-installs the wrong handler" % (f["name"].split("yomm2::")[-1], why), (f["file"], f["line"]))
+    if n < 2:
+        run.broken.append("handler setters not found in the unit (%d)" % n)
+    m = 0
+    for v in ast.vars:
+        mm = re.search(r"vectored_error<(yh::[PQ])(?:, (yh::prov|void))?>::error$", v["name"])
+        if not mm or v.get("init") is None:
+            continue
+        m += 1
+        want = "yh::prov::default_error_handler" if mm.group(2) == "yh::prov" else "vectored_error<%s, void>::default_error_handler" % mm.group(1)
+        refs = [astq.refname(x) or "" for x in astq.walk(v["init"]) if x.get("k") == "DeclRefExpr"]
+        got = [r for r in refs if r.endswith("::default_error_handler")]
+        ok = len(got) == 1 and got[0].replace("yorel::yomm2::policy::", "").replace(" ", "") == want.replace(" ", "")
+        run.instance(rule, "the initial handler of %s is %s" % (v["name"].split("policy::")[-1], want), (v["file"], v["line"]), ok=ok)
+        if not ok:
+            run.violation(rule, "vectored_error::error|initial|%s" % ("provider" if mm.group(2) == "yh::prov" else "own"), "the initial handler of %s is `%s`, expected %s: a policy configured with a handler provider reports through another handler" % (
+                v["name"].split("policy::")[-1], got[0] if got else "?", want), (v["file"], v["line"]))
+    if m < 2:
+        run.broken.append("initialisers of vectored_error<...>::error not found in the unit (%d)" % m)
+
+
+def publish_range_rules(run, rule, ast):
+    """install_gv publishes the v-table pointers over the compiler's own (merged) classes - each with ALL the ids of the class and
+    the one static v-table pointer install_gv has just set - not over the raw registration records (one id each, and for a class
+    known under several ids a static v-table pointer of its own that nobody set)."""
+    for f in by_name(ast, "install_gv"):
+        calls = [n for n in astq.walk(f["body"]) if n.get("k") in ("CallExpr", "CXXMemberCallExpr") and "publish_vptrs" in (n.get("callee") or "")]
+        if not calls:
+            # policies without external v-table pointers publish nothing
+            continue
+        for c in calls:
+            args = c["c"][1:3]
+            own = all(any(x.get("k") == "MemberExpr" and x.get("member") == "classes" and any(y.get("k") == "CXXThisExpr" for y in astq.walk(x)) for x in astq.walk(a)) for a in args)
+            glob = [astq.refname(x) for a in args for x in astq.walk(a) if x.get("k") == "DeclRefExpr" and x["ref"].get("storage") == "global" and x["ref"].get("dk") == "Var"]
+            ok = own and not glob
+            run.instance(rule, "%s: v-table pointers are published over the compiler's merged classes (all ids of a class, the pointer just installed)" % short(f), (f["file"], c["l"]), ok=ok)
+            if not ok:
+                if not own and not glob:
+                    run.broken.append("%s: the range handed to publish_vptrs is not recognised (`%s`)" % (short(f), astq.text(args[0])[:60]))
+                else:
+                    run.violation(rule, "compiler::install_gv|publish-range", "publish_vptrs ranges over `%s`: the registration records carry one id each and, for a class known under several ids, their own static v-table pointer that install_gv never set" % (
+                        (glob[0] if glob else astq.text(args[0]))[:80]), (f["file"], c["l"]))
+
+
+def basemap_rules(run, rule, floor=5):
+    """E3: the compile-time base list of a registered class is `the listed classes that are its bases` in the sense of
+    std::is_base_of - also a base that is repeated (ambiguous), private or virtual: the run-time lattice, and with it the slot
+    reservation in every base, is built from these lists."""
+    from . import e3
+    u = e3.Unit("basemap_" + rule.replace("-", "_").lower(), """
+#include <yorel/yomm2/core.hpp>
+using namespace yorel::yomm2;
+namespace bm { struct X { virtual ~X() {} }; struct P1 : X {}; struct P2 : X {}; struct Z : P1, P2 {}; struct Y { virtual ~Y() {} }; struct ZY : P1, P2, Y {};
+struct Priv : private X {}; struct V1 : virtual X {}; struct V2 : virtual X {}; struct D : V1, V2 {}; }
+using namespace bm;
+using detail::types;
+""")
+    u.add("basemap|repeated", "a repeated (ambiguous) non-virtual base is listed", "static_assert(std::is_same_v<detail::inheritance_map<X, P1, P2, Z>, types<types<X, X>, types<P1, X, P1>, types<P2, X, P2>, types<Z, X, P1, P2, Z>>>);")
+    u.add("basemap|repeated+other-root", "... also next to a second root", "static_assert(std::is_same_v<detail::inheritance_map<X, P1, P2, ZY, Y>, types<types<X, X>, types<P1, X, P1>, types<P2, X, P2>, types<ZY, X, P1, P2, ZY, Y>, types<Y, Y>>>);")
+    u.add("basemap|private", "a private base is listed", "static_assert(std::is_same_v<detail::inheritance_map<X, Priv>, types<types<X, X>, types<Priv, X, Priv>>>);")
+    u.add("basemap|virtual", "virtual bases are listed once", "static_assert(std::is_same_v<detail::inheritance_map<X, V1, V2, D>, types<types<X, X>, types<V1, X, V1>, types<V2, X, V2>, types<D, X, V1, V2, D>>>);")
+    u.add("basemap|unrelated", "an unrelated class is not listed", "static_assert(std::is_same_v<detail::inheritance_map<X, Y>, types<types<X, X>, types<Y, Y>>>);")
+    u.add("basemap|order", "bases are listed in list order, whatever the position of the class", "static_assert(std::is_same_v<detail::inheritance_map<Z, P2, X, P1>, types<types<Z, Z, P2, X, P1>, types<P2, P2, X>, types<X, X>, types<P1, X, P1>>>);")
+    if rule not in run.rules:
+        run.rule(rule, "the compile-time base list of a class is the listed classes that are its bases (std::is_base_of: repeated, private and virtual bases included)", floor=floor)
+    for ob, ok, msg in e3.run_unit(run, rule, u):
+        if not ok:
+            run.violation(rule, ob["key"], "%s: %s" % (ob["desc"], msg), "include/yorel/yomm2/detail.hpp")
